@@ -21,8 +21,9 @@ BOUNDS = {
              'ancestor position of the new target (a, a/b, a/b/c) with a deeper mkdir failing, optionally followed by a failing root',
     'thorough': 'plus a sibling output in the same new directory (reservation counting) and two prefixes',
 }
-ASSUMPTIONS = ['an over-long path component is modelled by making mkdir of that directory raise OSError(ENAMETOOLONG)']
-WITNESSES = {'quick': ['success', 'user-failure', 'mkdir-fault', 'stale-target'], 'thorough': ['success', 'mkdir-fault']}
+ASSUMPTIONS = ['an over-long directory component is modelled by making mkdir of that directory raise OSError(ENAMETOOLONG); an over-long '
+               'target file name is a real 256-character name (the model file system enforces NAME_MAX like the kernel)']
+WITNESSES = {'quick': ['success', 'user-failure', 'mkdir-fault', 'stale-target', 'long-name-target'], 'thorough': ['success', 'mkdir-fault']}
 
 CHAIN = ['a', 'a/b', 'a/b/c', 'a/b/c/t']
 UNI = ['a', 'a/t', 'a/b', 'a/b/z', 'a/b/c', 'a/b/c/t']
@@ -34,6 +35,10 @@ def families(tier):
     q = [
         {'name': 'fresh', 'params': {'target': 'a/b/c/t', 'modes': MODES, 'faults': [None, 'a', 'a/b', 'a/b/c']}, 'weight': 3},
         {'name': 'fresh', 'params': {'target': 'a/t', 'modes': MODES, 'faults': [None, 'a']}, 'weight': 1},
+        # the target's own file name is over-long (every stat / open of it fails with ENAMETOOLONG)
+        {'name': 'fresh', 'params': {'target': 'a/b/c/t', 'long_name': True, 'modes': MODES, 'faults': [None]}, 'weight': 1},
+        {'name': 'stale', 'params': {'target': 'a/b/c/t', 'long_name': True, 'old_targets': ['a/b/c/t', 'a/b'], 'modes': ['ok', 'no_create', 'raise_before'],
+                                     'faults': [None], 'mut_kinds': ['none']}, 'weight': 1},
         {'name': 'stale', 'params': {'target': 'a/b/c/t', 'modes': MODES, 'faults': [None, 'a/b/c']}, 'weight': 3},
         {'name': 'fresh', 'params': {'target': 'a/b/c/t', 'modes': ['ok', 'raise_before', 'raise_after', 'no_create'], 'faults': [None],
                                      'nested': True}, 'weight': 2},
@@ -135,7 +140,7 @@ class Run:
             n = self.fs.lookup(t) if hasattr(self.fs, 'lookup') else None
             self.obs['real_cid'] = n.cid if n is not None else self.fs.read_cid(t)
         virt = {}
-        for rel in CHAIN + ['a/t']:
+        for rel in CHAIN + ['a/t'] + ([self.target] if self.target not in CHAIN + ['a/t'] else []):
             p = w.p(rel)
             virt[rel] = [b.is_file(p), b.is_dir(p)]
         self.obs['virt'] = virt
@@ -145,14 +150,19 @@ class Run:
         return [self.obs['outcome'], virt]
 
 
+LONG = 'T' * 256        # longer than NAME_MAX: stat / open / mkdir of such a name fail with ENAMETOOLONG
+
+
 def harness(eng, fam, P):
     target = P['target']
+    if P.get('long_name'):
+        target = posixpath.dirname(target) + '/' + LONG
     mode = P['modes'][eng.choose('mode', len(P['modes']))]
     fault = P['faults'][eng.choose('fault', len(P['faults']))]
     how = SPELL[eng.choose('spell', len(SPELL))]
     content = eng.fresh_int('content')
     w = World(eng, UNI, sandbox=getattr(eng, 'sandbox', None))
-    eng.path_info.update({'mode': mode, 'fault': fault, 'spelling': how, 'target': target})
+    eng.path_info.update({'mode': mode, 'fault': fault, 'spelling': how, 'target': target.replace(LONG, '<256 chars>')})
     try:
         from file_builder import FileBuilder
         w.bind()
@@ -185,6 +195,11 @@ def harness(eng, fam, P):
         ri.root_raises = rr.root_raises = root_raises
         fault_path = w.p(fault) if fault else None
         fired = []
+        ref_fault_path = fault_path
+        if P.get('long_name') and fault_path is None:
+            # the reference for a target whose own name is too long: the call fails without any effect, as if creating
+            # its innermost parent directory had failed
+            ref_fault_path = w.p(posixpath.dirname(target))
         if fault_path:
             def hook(op, args, mutating):
                 if op == 'mkdir' and args[0] == fault_path:
@@ -198,16 +213,21 @@ def harness(eng, fam, P):
             impl = ('exc', e)
         finally:
             w.env.hooks[:] = []
-        ref = ref_build_with_fault(w, state, rr, fault_path)
-        sig = (fam, target, mode, 'fault:%s' % fault)
+        ref = ref_build_with_fault(w, state, rr, ref_fault_path)
+        sig = (fam, target.replace(LONG, '<256 chars>'), mode, 'fault:%s' % fault)
         oi, orf = ri.obs, rr.obs
         if fired:
             eng.witness('mkdir-fault')
         # ---- agreement with the reference (exception class, virtual view right after the call, final tree)
         eng.check('C10.build-outcome', impl[0] == ref[0], sig, info={'impl': repr(impl[1])[:200], 'ref': repr(ref[1])[:200]})
         if True:
-            eng.check('C10.outcome-class', oi.get('outcome') == orf.get('outcome'), sig + (oi.get('outcome'), orf.get('outcome')),
-                      info={'impl': oi.get('outcome'), 'ref': orf.get('outcome')})
+            if P.get('long_name'):
+                # which exception surfaces depends on where the over-long name is first noticed: only "it fails" is required
+                eng.check('C10.long-name-target-must-fail', oi.get('outcome') not in (None, 'ok'), sig, info={'impl': oi.get('outcome')})
+                eng.witness('long-name-target')
+            else:
+                eng.check('C10.outcome-class', oi.get('outcome') == orf.get('outcome'), sig + (oi.get('outcome'), orf.get('outcome')),
+                          info={'impl': oi.get('outcome'), 'ref': orf.get('outcome')})
             for rel in oi['virt']:
                 eng.check('C10.virtual-view-after-call', oi['virt'][rel] == orf['virt'][rel],
                           sig + (rel, str(oi['virt'][rel]), str(orf['virt'][rel])),
